@@ -223,7 +223,26 @@ theorem index_spec_partial (cfg : Cfg) (t : Table) (indx : List Nat) (hwf : inde
         (R'.getD i []).getD k .missing = (R.getD (perm.getD i 0) []).getD k .missing) ∧
       (∀ i j, i < j → j < R.length →
         lexLt (idxPositions t.columns (effIndex cfg t indx)) (R'.getD j []) (R'.getD i []) = false) :=
-  index_spec' cfg t indx hwf
+  index_spec_partial_aux cfg t indx hwf
+
+/-- **index is stable**: rows that tie on every index column (the lexicographic comparison says
+"not smaller" in both directions) keep the relative order they had before -/
+theorem index_stable (cfg : Cfg) (t : Table) (indx : List Nat) (hwf : indexWF cfg t indx = true) :
+    ∃ (t' : Table) (perm : List Nat) (R R' : List (List Cell)), t.index cfg indx = .ok t' ∧ t.rows = .ok R ∧ t'.rows = .ok R' ∧
+      perm.Perm (List.range R.length) ∧
+      (∀ i, i < R.length → (R'.getD i []).map Cell.key = (R.getD (perm.getD i 0) []).map Cell.key) ∧
+      (∀ i j, i < j → j < R.length →
+        lexLt (idxPositions t.columns (effIndex cfg t indx)) (R'.getD i []) (R'.getD j []) = false → perm.getD i 0 < perm.getD j 0) :=
+  index_stable_aux cfg t indx hwf
+
+/-- **index = the stable lexicographic sort** (`indexS`, the specification): up to Python's `==`
+cell by cell, the rows after `index` are the rows before sorted stably by the index columns.
+(Repeated column names are ignored by the repaired code: `effIndex`; in the pinned tree `indexWF`
+excludes them, see `index_duplicate_columns_counterexample`.) -/
+theorem index_eq_spec (cfg : Cfg) (t : Table) (indx : List Nat) (hwf : indexWF cfg t indx = true) :
+    ∃ (t' : Table) (R R' : List (List Cell)), t.index cfg indx = .ok t' ∧ t.rows = .ok R ∧ t'.rows = .ok R' ∧
+      R'.map (List.map Cell.key) = (indexS (idxPositions t.columns (effIndex cfg t indx)) R).map (List.map Cell.key) :=
+  index_eq_spec_aux cfg t indx hwf
 
 /-- rows (2,x) (1,y) (3,z) (1,w), not indexed -/
 def exU : Table :=
@@ -347,5 +366,117 @@ theorem insert_after_index_counterexample :
                  | .ok t' => (t'.rows, t'.indexes)
                  | .error e => (.error e, []))
      | .error e => (.error e, [])) = (.ok [[.int 1], [.int 3], [.int 2], [.int 0]], [0]) := by decide +kernel
+
+/-! ## `insert` in all three shapes, and the refinement over histories -/
+
+/-- **insert = `insertS`** for rows, dict rows and a column mapping, under the decidable `insertWF`:
+the table owns its lists; rows are as long as the (distinct) columns; the value lists of a mapping
+are equally long; new columns are appended in sorted order, old rows padded with `Missing` there,
+new rows padded with `Missing` for the columns they do not mention. -/
+theorem insert_eq_spec (cfg : Cfg) (t : Table) (d : InsertData) (hwf : insertWF cfg t d = true) :
+    ∃ t' R, t.rows = .ok R ∧ t.insert cfg d = .ok t' ∧ t'.columns = (insertS t.columns R d).1 ∧
+      t'.rows = .ok (insertS t.columns R d).2 ∧ t'.indexes = t.indexes :=
+  insert_eq_spec' cfg t d hwf
+
+/-- insert of a column mapping (first pair `q0`, all value lists as long as its list) -/
+theorem insert_mapping_rows (cfg : Cfg) (t : Table) (N : Nat) (h : InsertOK t N) (q0 : Nat × List Cell) (cs : List (Nat × List Cell))
+    (hk : ∀ q ∈ q0 :: cs, q.2.length = q0.2.length)
+    (hcne : t.columns ++ newColsOf t.columns ((q0 :: cs).map (·.1)) ≠ [])
+    (R : List (List Cell)) (hR : t.rows = .ok R) :
+    ∃ t', t.insert cfg (.cols (q0 :: cs)) = .ok t' ∧ t'.columns = (insertColsS t.columns R (q0 :: cs) q0.2.length).1 ∧
+      t'.rows = .ok (insertColsS t.columns R (q0 :: cs) q0.2.length).2 ∧ t'.indexes = t.indexes ∧ InsertOK t' (N + q0.2.length) :=
+  insert_mapping_rows' cfg t N h q0 cs hk hcne R hR
+
+/-- insert of a sequence of dict rows: every dict becomes one row (`d.get(k, Missing)`) -/
+theorem insert_dicts_rows (cfg : Cfg) (t : Table) (N : Nat) (h : InsertOK t N) (d0 : List (Nat × Cell)) (ds : List (List (Nat × Cell)))
+    (hpad : cfg.dictLen = true ∨ dictsToCols (d0 :: ds) ≠ [])
+    (hcne : t.columns ++ newColsOf t.columns ((d0 :: ds).flatMap (fun d => d.map (·.1))) ≠ [])
+    (R : List (List Cell)) (hR : t.rows = .ok R) :
+    ∃ t', t.insert cfg (.dicts (d0 :: ds)) = .ok t' ∧ t'.columns = (insertDictsS t.columns R (d0 :: ds)).1 ∧
+      t'.rows = .ok (insertDictsS t.columns R (d0 :: ds)).2 ∧ t'.indexes = t.indexes ∧ InsertOK t' (N + (d0 :: ds).length) :=
+  insert_dicts_rows' cfg t N h d0 ds hpad hcne R hR
+
+/-- the pinned tree pads one row for any number of key-less dicts (`dat_len = 1 if not data`) -/
+theorem insert_empty_dicts_counterexample :
+    rowsOf (exM.insert Cfg.unfixed (.dicts [[], []])) = .ok [[.int 1, .int 5], [.int 2, .missing], [.missing, .missing]] ∧
+    (insertS [0, 1] [[.int 1, .int 5], [.int 2, .missing]] (.dicts [[], []])).2
+      = [[.int 1, .int 5], [.int 2, .missing], [.missing, .missing], [.missing, .missing]] ∧
+    insertWF Cfg.unfixed exM (.dicts [[], []]) = false ∧ insertWF Cfg.fixed exM (.dicts [[], []]) = true := by
+  decide +kernel
+
+/-- **refinement over arbitrary histories.**  For every sequence `ops` of `insert` (any shape),
+`index`, `where` (keywords or a row predicate; each `where` continues with its result, so chains are
+where-of-where), `copy`: if every operation meets its decidable side conditions when its turn comes
+(`WFL` = `insertWF` / `indexWF` / `whereWF` + "the plain evaluation is defined", evaluated along the
+run), then the code's run succeeds, the specification machine's run succeeds
+(`runLS`: append the normalised rows / stable lexicographic sort / plain filter / nothing), and the
+two final tables have the same columns, the same index columns, and the same rows in the same order
+up to Python's `==` cell by cell (`AbsT.eqv`).  `where_eq_spec_partial`, `where_pred_eq_spec`,
+`index_eq_spec`, `insert_eq_spec` are the one-operation instances.  Not covered: several live
+objects sharing storage (`copy_shares_storage_counterexample`), `groupby` (an observation, see
+`groupby_partition`), `match`. -/
+theorem ops_refine (cfg : Cfg) (ops : List LOp) (t : Table) (a : AbsT) (hwf : WFL cfg t ops = true)
+    (hrel : AbsT.eqv t.abs a) :
+    ∃ t' a', runL cfg t ops = .ok t' ∧ runLS a ops = .ok a' ∧ AbsT.eqv t'.abs a' :=
+  ops_refine' cfg ops t a hwf hrel
+
+/-- the side conditions are satisfiable along a history with every kind of operation: a table
+without columns, dict rows, a column mapping, rows, index, where, where-of-where, copy, row predicate -/
+example : WFL Cfg.fixed (Init.columns []).table
+    [.insert (.dicts [[(0, .int 2), (1, .str [120])], [(0, .int 1)]]),
+     .insert (.cols [(0, [.int 3, .int 1]), (2, [.flt (1/2), .int 7])]),
+     .insert (.rows [[.int 2, .str [121], .missing]]),
+     .index [0, 1],
+     .whereK Option.none [(0, .dict .ge (.scalar (.int 2)))],
+     .whereK (some .isin) [(1, .val (.coll [.str [120], .str [121]]))],
+     .copy,
+     .whereP (.cell 0 (.eqv (.int 2)))] = true := by decide +kernel
+
+/-! ## `match` -/
+
+/-- **match on a homogeneous column** (all cells strings, or all cells numbers; pattern a number or a
+metacharacter-free string): the rows `_compare` selects are exactly those whose cell matches under
+the cell-by-cell reading `matchCell`.  The hypothesis is forced: see the two counterexamples. -/
+theorem where_match_eq_spec (cfg : Cfg) (col : List Cell) (arg : Cell) (harg : isNumber arg = true ∨ isStr arg = true)
+    (hh : homogB col = true) (hne : cfg.matchEmpty = true ∨ col ≠ []) :
+    compareScan cfg col .mtch (.scalar arg) = scanFilter 0 col (fun c => .ok (matchCell arg c)) :=
+  where_match_eq_spec' cfg col arg harg hh hne
+
+/-- (every tree) a string column with a `Missing` cell (ragged insert): `match` raises `TypeError` -/
+theorem where_match_missing_counterexample :
+    compareScan Cfg.fixed [.str [120], .missing] .mtch (.scalar (.str [120])) = .error .typeError ∧
+    scanFilter 0 [.str [120], .missing] (fun c => .ok (matchCell (.str [120]) c)) = .ok [0] ∧
+    homogB [.str [120], .missing] = false := by decide +kernel
+
+/-- (every tree) the column's first cell decides how every cell is compared: with `Missing` first the
+cells are matched as `str(cell)`, and `str(Missing) = 'None'` contains the pattern `on` -/
+theorem where_match_first_cell_counterexample :
+    compareScan Cfg.fixed [.missing, .str [111, 110]] .mtch (.scalar (.str [111, 110])) = .ok [0, 1] ∧
+    scanFilter 0 [.missing, .str [111, 110]] (fun c => .ok (matchCell (.str [111, 110]) c)) = .ok [1] ∧
+    homogB [.missing, .str [111, 110]] = false := by decide +kernel
+
+/-- the hypotheses are satisfiable: `'x12y'` contains the number 12 between non-digits, `'121'` does not -/
+example : compareScan Cfg.unfixed [.str [120, 49, 50, 121], .str [49, 50, 49]] .mtch (.scalar (.int 12)) = .ok [0] := by
+  decide +kernel
+
+/-! ## `copy` and shared storage -/
+
+/-- **queries through one object never change another.**  Every table object of a run shows the
+column lists of the first one (`copy` keeps the very dict, `where` a `View` of it); `where`,
+`groupby`, `copy` and listing, applied to any of them, leave every existing object exactly as it was. -/
+theorem copy_independent (cfg : Cfg) (ts : List (Option Table)) (op : TOp) (hop : op.mutates = false)
+    (i : Nat) (hi : i < ts.length) : (step cfg ts op).1[i]? = ts[i]? :=
+  step_query_preserves cfg ts op hop i hi
+
+/-- (every tree) `insert` / `index` are *not* independent: `t=…index('a'); c=t.copy(); c.index('b')`
+reorders what `t` shows while `t` keeps `_indexes=('a',)`, and `c.insert(..)` adds the rows to `t`
+(recorded findings C17-F19/F20; `test_copy` pins the sharing: `assertIs(table._data, tcopy._data)`).
+`run` = initial table, insert 4 rows, index a, copy, index the copy by b, look at the original. -/
+theorem copy_shares_storage_counterexample :
+    (run Cfg.fixed (.columns [0, 1])
+      [.insert 0 (.rows [[.int 1, .str [122]], [.int 2, .str [120]], [.int 1, .str [121]], [.int 3, .str [119]]]),
+       .index 0 [0], .copy 0, .index 1 [1], .peek 0]).getLast? =
+      some (.table [[.int 3, .str [119]], [.int 2, .str [120]], [.int 1, .str [121]], [.int 1, .str [122]]] [0, 1] [0]) := by
+  decide +kernel
 
 end Coba.C17
